@@ -343,27 +343,33 @@ func (w *world) collect(where string) {
 func (w *world) key() string {
 	tasks := util.VerifWheelTasks(w.tw)
 	pipe := util.VerifPipeItems(w.tw)
+	// fillers are collapsed to one pseudo session id (nReal) before anything is formatted
 	type tk struct {
 		s                 int
 		rel, round, delay int
 		indexed           bool
 		tag               string
 	}
+	col := func(s int) int {
+		if s >= nReal {
+			return nReal
+		}
+		return s
+	}
 	tag := func(cb func()) (int, string) {
 		id := w.idOf(cb)
 		if id.s < 0 {
 			return -1, "?"
 		}
-		m := w.ss[id.s]
-		if id.gen == m.gen {
-			return id.s, "cur"
+		if id.gen == w.ss[id.s].gen {
+			return col(id.s), "cur"
 		}
-		return id.s, "old"
+		return col(id.s), "old"
 	}
-	var tks []tk
+	tks := map[tk]int{}
 	for _, t := range tasks {
 		s, tg := tag(t.Callback)
-		tks = append(tks, tk{s, t.Rel, t.Round, int(t.Delay / time.Second), t.Indexed, tg})
+		tks[tk{s, t.Rel, t.Round, int(t.Delay / time.Second), t.Indexed, tg}]++
 	}
 	type pk struct {
 		op    string
@@ -371,15 +377,38 @@ func (w *world) key() string {
 		delay int
 		tag   string
 	}
-	var pks []pk
+	type run struct {
+		p pk
+		n int
+	}
+	var runs []run
 	for _, p := range pipe {
-		k, _ := p.Key.(keyT)
+		var x pk
 		if p.Op == "add" {
 			s, tg := tag(p.Callback)
-			pks = append(pks, pk{"add", s, int(p.Delay / time.Second), tg})
+			x = pk{"add", s, int(p.Delay / time.Second), tg}
 		} else {
-			pks = append(pks, pk{p.Op, k.s, 0, ""})
+			k, _ := p.Key.(keyT)
+			x = pk{p.Op, col(k.s), 0, ""}
 		}
+		if n := len(runs); n > 0 && runs[n-1].p == x {
+			runs[n-1].n++
+		} else {
+			runs = append(runs, run{x, 1})
+		}
+	}
+	type fmk struct {
+		state, rel int
+		drop       bool
+	}
+	fms := map[fmk]int{}
+	for s := nReal; s < len(w.ss); s++ {
+		m := w.ss[s]
+		k := fmk{state: m.state}
+		if m.state == stReg {
+			k.rel, k.drop = m.a+m.d-w.now, m.anyDrop
+		}
+		fms[k]++
 	}
 	render := func(perm [nReal]int) string {
 		name := func(s int) string {
@@ -406,38 +435,20 @@ func (w *world) key() string {
 		sb.WriteString(strings.Join(ms, ",") + "|")
 		// filler model grouped
 		fm := map[string]int{}
-		for s := nReal; s < len(w.ss); s++ {
-			m := w.ss[s]
-			x := fmt.Sprintf("%d", m.state)
-			if m.state == stReg {
-				x += fmt.Sprintf(":%+d:%v", m.a+m.d-w.now, m.anyDrop)
-			}
-			fm[x]++
+		for k, n := range fms {
+			fm[fmt.Sprintf("%d:%+d:%v", k.state, k.rel, k.drop)] = n
 		}
 		sb.WriteString(groupStr(fm) + "|")
 		// wheel tasks
 		tm := map[string]int{}
-		for _, t := range tks {
-			tm[fmt.Sprintf("%s@%d r%d d%d %v %s", name(t.s), t.rel, t.round, t.delay, t.indexed, t.tag)]++
+		for t, n := range tks {
+			tm[fmt.Sprintf("%s@%d r%d d%d %v %s", name(t.s), t.rel, t.round, t.delay, t.indexed, t.tag)] += n
 		}
 		sb.WriteString(groupStr(tm) + "|")
 		// pipeline in order, run-length encoded
-		prev, run := "", 0
-		flush := func() {
-			if run > 0 {
-				fmt.Fprintf(&sb, "%sx%d;", prev, run)
-			}
+		for _, r := range runs {
+			fmt.Fprintf(&sb, "%s %s d%d %sx%d;", r.p.op, name(r.p.s), r.p.delay, r.p.tag, r.n)
 		}
-		for _, p := range pks {
-			x := fmt.Sprintf("%s %s d%d %s", p.op, name(p.s), p.delay, p.tag)
-			if x == prev {
-				run++
-				continue
-			}
-			flush()
-			prev, run = x, 1
-		}
-		flush()
 		return sb.String()
 	}
 	a := render([nReal]int{0, 1})
@@ -628,6 +639,7 @@ func childLoop() {
 		}
 		line = strings.TrimSuffix(line, "\n")
 		if line == "quit" {
+			out.Flush()
 			os.Exit(0)
 		}
 		var hist []string
@@ -742,12 +754,18 @@ func main() {
 		}
 		return def
 	}
-	d1, k1 := envInt("C37_D1", r.Pick(7, 9)), envInt("C37_K1", r.Pick(3, 4))
-	d2, k2 := envInt("C37_D2", r.Pick(5, 7)), envInt("C37_K2", r.Pick(2, 3))
-	dB := envInt("C37_DB", r.Pick(5, 7))
+	d1, k1 := envInt("C37_D1", r.Pick(6, 10)), envInt("C37_K1", r.Pick(3, 4))
+	d2, k2 := envInt("C37_D2", r.Pick(5, 6)), envInt("C37_K2", r.Pick(2, 3))
+	dB := envInt("C37_DB", r.Pick(4, 7))
+	// two-session phase: the quick tier uses 1 tick, N, N+1 ticks and 1.4 ticks for both
+	// sessions (same list for both: the symmetry reduction needs it), thorough the full list
+	delays2 := delays
+	if r.Quick() {
+		delays2 = []int{5, 15, 20, 7}
+	}
 	phases := []phase{
 		{"A1-one-session", d1, enabledA([][]int{delays}, k1)},
-		{"A2-two-sessions", d2, enabledA([][]int{delays, delays}, k2)},
+		{"A2-two-sessions", d2, enabledA([][]int{delays2, delays2}, k2)},
 		{"B-saturation", dB, enabledB},
 	}
 	var states, trans int64
@@ -755,6 +773,7 @@ func main() {
 	for _, ph := range phases {
 		ph := ph
 		nViol := 0
+		phStart := time.Now()
 		st := xstate.BFS(xstate.Spec[string]{
 			Replay:   remoteReplay,
 			Enabled:  ph.enabled,
@@ -779,7 +798,7 @@ func main() {
 		states += st.States
 		trans += st.Transitions
 		per[ph.name] = map[string]interface{}{"max_depth": ph.depth, "depth_reached": st.MaxDepth, "states": st.States,
-			"transitions": st.Transitions, "violating_histories": nViol, "frontier_per_depth": st.PerDepth, "complete": !st.Capped}
+			"transitions": st.Transitions, "violating_histories": nViol, "frontier_per_depth": st.PerDepth, "complete": !st.Capped, "wall_s": time.Since(phStart).Seconds()}
 		if st.Capped {
 			r.Capped(fmt.Sprintf("phase %s: time budget used up at depth %d of %d", ph.name, st.MaxDepth, ph.depth))
 		}
@@ -792,7 +811,7 @@ func main() {
 	r.Set("transitions", trans)
 	r.Set("traces_validated_against_impl", trans)
 	r.Set("phases", per)
-	r.Set("bounds", fmt.Sprintf("tick=%ds buckets=%d sessions=2 delays(s)=%v ops-per-tick-interval<=%d/%d (phase A1/A2); positions of an operation: at the boundary just after a tick, or %ds later (1s before the next tick); phase B: one flood of cap(pipeline) Adds by filler sessions", tickS, nBucket, delays, k1, k2, lateOff))
+	r.Set("bounds", fmt.Sprintf("tick=%ds buckets=%d sessions=2 delays(s)=%v (two-session phase: %v) ops-per-tick-interval<=%d/%d (phase A1/A2); positions of an operation: at the boundary just after a tick, or %ds later (1s before the next tick); phase B: one flood of cap(pipeline) Adds by filler sessions", tickS, nBucket, delays, delays2, k1, k2, lateOff))
 	r.Set("explanation", "states = distinct canonical (wheel contents relative to currentIndex + queued pipeline + oracle model) states; transitions = histories replayed on a fresh real TimeWheel with its real goroutine loop (every transition is executed on the implementation)")
 	r.Sample(caseT{"A2-two-sessions", []string{"add 0 15", "tick", "late", "add 1 7", "tick", "tick", "tick"}})
 	r.Sample(caseT{"A1-one-session", []string{"add 0 30", "tick", "add 0 5", "rm 1", "tick", "tick"}})
